@@ -19,6 +19,7 @@ RULE = (
     "normalised span trees, sibling interleaving being schedule dependent) and exactly one shutdown. The emission "
     "sites hit (event type x nested or not) are tabulated. Non-trivial: baseline stream has >= 4 events; distinct = "
     "(program shape, variant, fault position class)."
+    " A processor that never raises but reorders / empties the lists in the events it is handed (multi-target decisions, uncached and replayed from a cache): outcome and invocations as without processors."
     " Two processors failing on the same event with healthy recorders before, between and behind them (layouts FFH, HFHFH, FHFH). Multi-target gates whose decision names END next to real targets."
     ' Also top-level runner.map over 0-3 items (empty maps included) with a processor failing on every event, on one event or at shutdown, next to a healthy one, both registration orders.'
 )
@@ -289,6 +290,60 @@ def multi_end_program(cached: bool) -> dict:
     return spec
 
 
+def meddling_observer(ctx):
+    """A processor that never raises but treats the events it is handed as its own: it reorders / empties every list it
+    finds in an event's fields (a log formatter sorting `decision` in place). Events are frozen dataclasses; whatever a
+    processor does to what it was handed, the run's status, values and node invocations stay those of the processor-free
+    run. Multi-target gates (decision lists), uncached and replayed from a cache, both runners."""
+    from hypergraph import InMemoryCache
+    from hypergraph.events import AsyncEventProcessor, EventProcessor
+
+    class Meddler(EventProcessor):
+        touched = 0
+
+        def on_event(self, event):
+            for name in getattr(event, "__dataclass_fields__", {}):
+                v = getattr(event, name, None)
+                if isinstance(v, list):
+                    Meddler.touched += 1
+                    v.reverse()
+                    v.clear()
+                elif isinstance(v, dict):
+                    Meddler.touched += 1
+                    v.clear()
+
+    class AMeddler(AsyncEventProcessor, Meddler):
+        async def on_event_async(self, event):
+            Meddler.on_event(self, event)
+
+    for sel in range(4):
+        for cached in (False, True):
+            spec = multi_end_program(cached)
+            inputs = {"i0": "run:i0", "s0": sel}
+            for runner in ("sync", "async"):
+                s = core.with_async(spec, runner == "async", ctx.rng, 0.6)
+
+                def run_with(procs):
+                    cache = InMemoryCache() if cached else None
+                    if cache is not None:
+                        core.execute(s, inputs, runner, cache=cache, warm=False)
+                    return core.execute(s, inputs, runner, processors=procs, cache=cache, warm=False)
+
+                base = run_with(None)
+                if base.deadlock or base.inconclusive:
+                    continue
+                o = run_with([(AMeddler if runner == "async" and sel % 2 else Meddler)()])
+                ctx.obs["meddling_observer_runs"] += 1
+                ctx.obs["fault_runs"] += 1
+                if o.deadlock or o.inconclusive:
+                    ctx.inconc(o.inconclusive or "deadlock")
+                    continue
+                if outcome(o) != outcome(base):
+                    ctx.violation("C13:outcome-changed:event-payload-mutated", f"{runner}{' (cached gate)' if cached else ''}: a processor that reorders / empties the list in RouteDecisionEvent.decision changed the run: {core.short(outcome(o)[0], 300)} vs {core.short(outcome(base)[0], 300)}", {"family": "gated", "spec": spec, "inputs": inputs, "runner": runner, "cached": cached})
+    ctx.obs["event_payloads_touched"] += Meddler.touched
+    ctx.case({"directed": "meddling-observer"}, Meddler.touched > 0)
+
+
 def run(ctx):
     n = 30 if ctx.tier == "quick" else 700
     core.WARM_P = 0.0
@@ -302,6 +357,7 @@ def run(ctx):
             for cached in (False, True):
                 one_program(ctx, {"family": "cached" if cached else "gated", "spec": multi_end_program(cached), "inputs": {"i0": "run:i0", "s0": sel}}, 99)
                 ctx.obs["multi_target_end_programs"] += 1
+        meddling_observer(ctx)
     for i in range(n):
         fam = families.rich(ctx.rng)
         one_program(ctx, fam, i)
